@@ -48,3 +48,37 @@ Theorem C18_trafficrouting_deletion_not_blocked : forall o n g,
   TRCtl.ro_own_finalizer (TRCtl.tr_reconcile o n g) = false.
 Proof. exact Proofs.TRCtl.tr_deletion_not_blocked. Qed.
 Print Assumptions C18_trafficrouting_deletion_not_blocked.
+
+(* the teardown never goes quiet while the finalizer is still there *)
+Theorem C18_trafficrouting_teardown_never_stalls : forall o n g, TRCtl.to_deleting o = true ->
+  let r := TRCtl.tr_reconcile o n g in
+  TRCtl.ro_own_finalizer r = false \/ TRCtl.ro_err r = true \/ TRCtl.ro_requeue r = true.
+Proof. exact Proofs.TRCtl.tr_teardown_never_stalls. Qed.
+Print Assumptions C18_trafficrouting_teardown_never_stalls.
+
+(* the Rollout controller: the teardown is neither quiet nor blocked *)
+Theorem C18_rollout_teardown_never_stalls : forall sp st w br m,
+  RolloutSM.rs_deleting sp = true -> RolloutSM.rp_phase st = RolloutSM.RpTerminating ->
+  RolloutSM.reconcile sp st w br = RolloutSM.ROut m -> RolloutSM.o_finalizer m = true ->
+  RolloutSM.o_requeue m = true \/
+  (RolloutSM.rp_term st = Some false /\ exists s', RolloutSM.o_status m = Some s' /\ RolloutSM.rp_term s' = Some true).
+Proof. exact Proofs.RolloutSM.rollout_teardown_never_stalls. Qed.
+Print Assumptions C18_rollout_teardown_never_stalls.
+Theorem C18_rollout_deletion_not_blocked : forall sp st w br m,
+  RolloutSM.rs_deleting sp = true -> RolloutSM.rp_term st = Some true ->
+  RolloutSM.reconcile sp st w br = RolloutSM.ROut m -> RolloutSM.o_finalizer m = false.
+Proof. exact Proofs.RolloutSM.rollout_deletion_not_blocked. Qed.
+Print Assumptions C18_rollout_deletion_not_blocked.
+
+(* the BatchRelease controller: the teardown is neither quiet nor blocked *)
+Theorem C18_batchrelease_teardown_never_stalls : forall sp st w r,
+  BRExec.sp_deleting sp = true -> BRExec.sp_finalizer sp = true ->
+  BRExec.reconcile sp st w = Some r -> BRExec.r_finalizer r = true ->
+  BRExec.r_requeue r = BRExec.RqAfter \/ BRExec.status_eqb st (BRExec.r_status r) = false.
+Proof. exact Proofs.BRExec.br_teardown_never_stalls. Qed.
+Print Assumptions C18_batchrelease_teardown_never_stalls.
+Theorem C18_batchrelease_deletion_not_blocked : forall sp st w r,
+  BRExec.sp_deleting sp = true -> BRExec.sp_finalizer sp = true -> BRExec.bs_phase st = BRExec.PhCompleted ->
+  BRExec.reconcile sp st w = Some r -> BRExec.r_finalizer r = false.
+Proof. exact Proofs.BRExec.br_deletion_not_blocked. Qed.
+Print Assumptions C18_batchrelease_deletion_not_blocked.
